@@ -618,6 +618,18 @@ def _post_judge(m, table, bnames, pnames, one, ys, viol, mode):
                 break
 
 
+def _drain(gen, cap=3000):
+    """Consume an enumeration; an enumeration that repeats itself need not end: stop at the first repeat."""
+    out, seen = [], set()
+    for st, obj, names in gen:
+        key = tuple(sorted(names))
+        out.append([st, round(obj, 6), list(names)])
+        if key in seen or len(out) >= cap:
+            break
+        seen.add(key)
+    return out
+
+
 def _two_phase(m, viol, stats):
     """The model keeps being built after a first (limit=1) enumeration: one more binary, tied to an
     existing one, with its own penalty; then it is enumerated again.  Judged against the final model."""
@@ -642,7 +654,7 @@ def _two_phase(m, viol, stats):
     R = M.addVar(vtype="B", name=final["bins"][last])
     M.addConstr(B[0] <= R, name="CLATE")
     M.setObjective(M.objective + 0.07 * R)
-    ys = [[st, round(obj, 6), list(names)] for st, obj, names in M.solutions(final["gap"])]
+    ys = _drain(M.solutions(final["gap"]))
     _post_judge(final, _reference(final), bnames + [M.varName(R)], pnames, one, ys, viol, "two_phase")
     return 1
 
@@ -661,12 +673,16 @@ def _interleaved(m1, m2, viol, stats):
             try:
                 st, obj, names = next(g1)
                 y1.append([st, round(obj, 6), list(names)])
+                if y1.count(y1[-1]) > 1 or len(y1) > 3000:
+                    done1 = True  # (repeats itself: see _drain)
             except StopIteration:
                 done1 = True
         if not done2:
             try:
                 st, obj, names = next(g2)
                 y2.append([st, round(obj, 6), list(names)])
+                if y2.count(y2[-1]) > 1 or len(y2) > 3000:
+                    done2 = True
             except StopIteration:
                 done2 = True
     _post_judge(m1, _reference(m1), A[2], A[4], A[7], y1, viol, "interleaved")
@@ -891,7 +907,9 @@ def run_segment(seg):
         SIM.reset({"max_solves": 4000, "max_wall": 90.0, "monitor": False})
         _guard(viol, "w2", _w2, viol, stats)
         runs += 1
-    if seg.get("w3"):
+    if seg.get("w3") and not viol:
+        # (aldy's own stage loops are driven here; with a verdict already in hand they are not needed, and an
+        # enumeration that never ends would only run into the workload bound)
         _guard(viol, "w3", _w3, seg, viol, stats)
         merge_fired()
         runs += 3
